@@ -118,6 +118,8 @@ ComplexCTORExpression * ComplexCTORExpression::parse(Parser& p, Context& ctx, un
         if (found)
         {
           DBG(DBG_DEBUG, "%s: found ctor id=%d\n", __FUNCTION__, ctor.id);
+          for (a = 0; a < ctor.args_count; ++a)
+            args[a] = plugin::guard_object(args[a], ctor.args[a], type_id);
           return new ComplexCTORExpression(type_id, ctor, std::move(args));
         }
       }
